@@ -225,7 +225,7 @@ FIELD_NAMES = (b"PRIORITY", b"SYSLOG_IDENTIFIER", b"_PID", b"_UID", b"_COMM", b"
                b"_SYSTEMD_UNIT", b"CODE_FILE", b"CODE_LINE", b"_CMDLINE", b"UNIT", b"X_EXTRA")
 
 
-def gen_entries(rng, n, t0_us=None, pattern="increasing", binary_p=0.1, multiline_p=0.15, tag=b"J", long_p=0.0):
+def gen_entries(rng, n, t0_us=None, pattern="increasing", binary_p=0.1, multiline_p=0.15, tag=b"J", long_p=0.0, nomsg_p=0.0):
     """n entries with unique MESSAGE texts ('<tag><index> ...'); receive times by pattern"""
     t = t0_us if t0_us is not None else 1_600_000_000_000_000 + rng.randrange(10**9) * 1000
     boots = [bytes(rng.getrandbits(8) for _ in range(16)) for _ in range(rng.choice((1, 1, 2)))]
@@ -281,6 +281,9 @@ def gen_entries(rng, n, t0_us=None, pattern="increasing", binary_p=0.1, multilin
             # a field may occur more than once in an entry, with different values
             nm = rng.choice([f for f in fields if f[0] != b"MESSAGE"])[0]
             fields.append((nm, b"second-" + bytes(rng.choice(b"abcdef") for _ in range(rng.randint(1, 8)))))
+        if nomsg_p and rng.random() < nomsg_p and len(fields) > 1:
+            # a structured record without a MESSAGE field (metrics, audit records): the cat rendering has no text for it
+            fields = [f for f in fields if f[0] != b"MESSAGE"] + [(b"X_SAMPLE", b"%d" % i)]
         if rng.random() < 0.3:
             rng.shuffle(fields)
         out.append(Entry(t, mono, boot, fields))
